@@ -20,6 +20,10 @@ GOENV = {"GOFLAGS": "-mod=mod", "GOPROXY": "off", "GOSUMDB": "off", "GOTOOLCHAIN
 
 EXIT_OK, EXIT_VIOLATION, EXIT_INCONCLUSIVE = 0, 1, 3
 
+# Runs pointed at a scratch tree (mutation testing, VERIF_REPO=<dir>) must not overwrite the
+# evidence and replay files of /repo itself: they go under work/alt/.
+OUT = VERIF if os.path.realpath(REPO) == "/repo" else os.path.join(VERIF, "work", "alt")
+
 _scratch = None
 
 
@@ -170,7 +174,7 @@ def known_for(prop, engine=None, status="known"):
 # ----------------------------------------------------------------- evidence / verdict
 
 def write_evidence(prop, tier, seed, coverage, wall_s, violations, assumptions=None, level="exploration", extra=None):
-    os.makedirs(os.path.join(VERIF, "evidence"), exist_ok=True)
+    os.makedirs(os.path.join(OUT, "evidence"), exist_ok=True)
     ev = {
         "property_id": prop,
         "tier": tier,
@@ -183,7 +187,7 @@ def write_evidence(prop, tier, seed, coverage, wall_s, violations, assumptions=N
     }
     if extra:
         ev.update(extra)
-    path = os.path.join(VERIF, "evidence", prop + ".json")
+    path = os.path.join(OUT, "evidence", prop + ".json")
     tmp = path + ".tmp%d" % os.getpid()
     json.dump(ev, open(tmp, "w"), indent=1, default=str)
     os.replace(tmp, path)
@@ -193,7 +197,7 @@ def write_evidence(prop, tier, seed, coverage, wall_s, violations, assumptions=N
 def clean_replays(prop):
     """Witnesses of earlier runs are removed at the start of a run (known-finding witnesses
     live under /verif/findings, not here)."""
-    d = os.path.join(VERIF, "replays", prop)
+    d = os.path.join(OUT, "replays", prop)
     if os.path.isdir(d):
         for f in os.listdir(d):
             try:
@@ -203,7 +207,7 @@ def clean_replays(prop):
 
 
 def save_replay(prop, name, obj):
-    d = os.path.join(VERIF, "replays", prop)
+    d = os.path.join(OUT, "replays", prop)
     os.makedirs(d, exist_ok=True)
     path = os.path.join(d, name + ".json")
     json.dump(obj, open(path, "w"), indent=1, default=str)
